@@ -10,13 +10,16 @@ CONSTANTS Fudge, Dts, Tampers
 
 Requests == [op : {"update", "axfr", "ixfr"}, signed : BOOLEAN, keyName : {"k1", "k2", "kx"},
              macKey : {"k1", "k2", "kbad", "kprefix"}, alg : {"cfg", "other"}, macLen : {"full", "trunc"},
-             dt : Dts, tamper : Tampers, hdr : {"plain", "rd", "cd", "rdcd"}]
+             dt : Dts, tamper : Tampers, hdr : {"plain", "rd", "cd", "rdcd"}, rfudge : {Fudge, 60}]
 Policies == {x \in [allowUpdate : BOOLEAN, axfr : {"deny", "all", "signed"}, fudge : {Fudge}, store : {"sqlite", "memory"},
                     start : {"direct", "first", "restart"}] : x.store = "memory" => x.start = "direct"}
 
 \* an unsigned request has no TSIG fields: normalise them so that descriptions are unique
 Normal(r) == /\ r.signed \/ (r.keyName = "kx" /\ r.macKey = "kbad" /\ r.alg = "cfg" /\ r.macLen = "full"
                               /\ r.dt = 0 /\ r.tamper \in {"none", "msgId", "appended"})
+             \* a fudge smaller than the configured one is tried on otherwise unremarkable requests only
+             /\ r.rfudge # Fudge => (r.signed /\ r.macKey = r.keyName /\ r.keyName \in Configured /\ r.tamper = "none"
+                                     /\ r.macLen = "full" /\ r.alg = "cfg" /\ r.hdr = "plain")
              \* the cut key is tried on otherwise unremarkable requests only
              /\ r.macKey = "kprefix" => (r.signed /\ r.keyName \in Configured /\ r.tamper = "none" /\ r.macLen = "full"
                                          /\ r.alg = "cfg" /\ r.dt = 0 /\ r.hdr = "plain")
